@@ -30,6 +30,7 @@ import os
 import random
 import signal
 import tempfile
+import time
 import warnings
 
 from .common import import_ckl, MachineryError, REPO
@@ -38,6 +39,7 @@ from . import absval
 
 import_ckl()
 from ckl.interpreter import Interpreter  # noqa: E402
+from ckl.parser import parse_script  # noqa: E402
 from ckl import values as V  # noqa: E402
 
 NAMES = ("a", "b", "s", "c")
@@ -46,6 +48,12 @@ CHARS = {1: "a", 2: "b", 3: "c", 4: "d", 5: "e"}
 MUTATOR_OPS = {"append", "append_ref", "append_all", "insert_at", "delete_at", "remove",
                "remove_member", "put", "put_ref", "set_elem", "set_elem_ref",
                "set_member", "set_member_ref"}
+ALL_OPS = ["append", "append_ref", "append_all", "insert_at", "delete_at", "remove", "remove_member",
+           "put", "put_ref", "set_elem", "set_elem_ref", "set_member", "set_member_ref",
+           "concat_empty", "concat_one", "add_assign", "minus_empty", "minus_one", "repeat",
+           "slice_full", "slice_head", "sublist", "sorted", "zip", "to_list", "to_set", "to_map",
+           "to_object", "comprehension", "reverse", "spread", "lit_list", "lit_str", "alias"]
+PROBE_OPS = ["append", "put", "set_member", "set_elem"]
 NPROC = max(1, min(16, os.cpu_count() or 1))
 
 
@@ -103,6 +111,18 @@ def render_state(st):
     """What every name reads (string(x)) according to the model."""
     heap, names = st
     return [render_cell(heap, c, top=True) for c in names]
+
+
+def reach(heap, r):
+    """References reachable from reference r (r included)."""
+    out, todo = set(), [r]
+    while todo:
+        x = todo.pop()
+        if x in out:
+            continue
+        out.add(x)
+        todo.extend(v for t, v in heap[x - 1][2] if t == "r")
+    return out
 
 
 def partition(st):
@@ -313,15 +333,34 @@ def _worker_init():
     _IT.interpret(SETUP, "c16")
 
 
+_PARSED = {}
+
+
+def _run_src(it, src):
+    """Interpreter.interpret(src) with the parse cached per source text (the
+    replay runs the same few hundred statements tens of thousands of times).
+    Sources containing a string literal are parsed afresh every time, so that
+    a literal is new program text in every program."""
+    node = _PARSED.get(src)
+    if node is None:
+        node = parse_script(src, "c16")
+        if "'" not in src:
+            _PARSED[src] = node
+    result = node.evaluate(it.environment)
+    if result.isReturn():
+        return result.value
+    return result
+
+
 def _read(it):
-    o = timed(lambda: it.interpret(READ, "c16"), 20)
+    o = timed(lambda: _run_src(it, READ), 20)
     if o[0] != "val":
         return None
     return [x.value for x in o[1].value]
 
 
 def _identity(it):
-    o = timed(lambda: it.interpret(READ_ID, "c16"), 20)
+    o = timed(lambda: _run_src(it, READ_ID), 20)
     if o[0] != "val":
         return None
     vals = o[1].value
@@ -330,13 +369,13 @@ def _identity(it):
             for i in range(4)]
 
 
-def run_case(case, limit=1.0):
+def run_case(case, limit=0.5):
     """case: {"build": src, "init_want": [...], "steps": [{"src", "want", "op", "part"}]}
     -> {"viol": (key, what) | None, "drift": [(kind, sample)], "evals": n}"""
     it = _IT
     res = {"viol": None, "drift": [], "evals": 0}
-    it.interpret(PROLOGUE, "c16")
-    o = timed(lambda: it.interpret(case["build"], "c16"), 20)
+    _run_src(it, PROLOGUE)
+    o = timed(lambda: _run_src(it, case["build"]), 20)
     res["evals"] += 2
     if o[0] != "val":
         raise MachineryError(f"initial alias graph could not be built: {case['build']} -> {o[:2]}")
@@ -346,7 +385,7 @@ def run_case(case, limit=1.0):
     prog = []
     for k, step in enumerate(case["steps"]):
         prog.append(step["src"])
-        o = timed(lambda: it.interpret(step["src"], "c16"), limit)
+        o = timed(lambda: _run_src(it, step["src"]), limit)
         res["evals"] += 2
         key = case["label"] + " ; " + " ; ".join(prog)
         if o[0] == "timeout":
@@ -394,6 +433,7 @@ class Graph:
         self.inits = []            # normal-form states
         self.edges = {}            # (pre, opkey) -> (op, post)
         self.out = {}              # pre -> [opkey]
+        self.probe_only = set()    # transitions exported at the probe level only
 
     def add(self, res):
         for js in res.records("INIT"):
@@ -407,6 +447,10 @@ class Graph:
             if (pre, ok) not in self.edges:
                 self.edges[(pre, ok)] = (op, post)
                 self.out.setdefault(pre, []).append(ok)
+                if e["probe"]:
+                    self.probe_only.add((pre, ok))
+            elif not e["probe"]:
+                self.probe_only.discard((pre, ok))
 
 
 def make_case(g, parent, pre, ok):
@@ -438,7 +482,8 @@ def replay_graph(run, g, pool):
     stats = {"cases": 0, "evals": 0, "levels": [], "longest": 0, "confirmed_hangs": {}}
     samples = []
     while frontier:
-        level = [(st, ok) for st in frontier for ok in sorted(g.out.get(st, []))]
+        level = [(st, ok) for st in frontier for ok in sorted(g.out.get(st, []))
+                 if (st, ok) not in g.probe_only]
         cases = [make_case(g, parent, st, ok) for st, ok in level]
         chunks = [cases[i:i + 64] for i in range(0, len(cases), 64)]
         results = []
@@ -456,10 +501,10 @@ def replay_graph(run, g, pool):
             if r["viol"]:
                 key, what = r["viol"]
                 opk = case["steps"][-1]["op"]
-                if what.startswith("operation-does-not-finish") and stats["confirmed_hangs"].get(opk, 0) < 3:
+                if what.startswith("operation-does-not-finish") and stats["confirmed_hangs"].get(opk, 0) < 2:
                     # re-run alone with a generous limit before believing it
                     _worker_init()
-                    r2 = run_case(case, limit=8.0)
+                    r2 = run_case(case, limit=5.0)
                     if not r2["viol"]:
                         run.drift("slow-operation", {"program": key})
                         r = r2
@@ -476,8 +521,58 @@ def replay_graph(run, g, pool):
             if post not in parent:
                 parent[post] = (st, ok)
                 nxt.append(post)
-        stats["cases"] += len(cases)
-        stats["levels"].append({"states": len(frontier), "transitions": len(cases), "violating": nbad})
+        # What a non-mutating operation returned can be told apart from an alias
+        # of its input only by a later mutation: every non-mutating transition that
+        # the implementation followed is replayed once more, followed by each probe
+        # (one documented mutation per distinct container, Heap.tla IsProbe) that
+        # the model offers in its post-state.
+        pairs = []
+        for (st, ok), case, r in zip(level, cases, results):
+            if ok[0] in MUTATOR_OPS or r["viol"] or any(k.startswith("operation-raised") for k, _ in r["drift"]):
+                continue
+            post = g.edges[(st, ok)][1]
+            # containers worth probing: the result and whatever the source reaches
+            want_refs = set()
+            for nm in (ok[1], ok[3]):
+                if nm in NAMES and post[1][NAMES.index(nm)][0] == "r":
+                    want_refs |= reach(post[0], post[1][NAMES.index(nm)][1])
+            seen_refs = set()
+            for ok2 in sorted(g.out.get(post, []), key=lambda k: (PROBE_OPS.index(k[0]) if k[0] in PROBE_OPS else 9, k)):
+                if ok2[0] not in PROBE_OPS:
+                    continue
+                ref = post[1][NAMES.index(ok2[1])]
+                if ref in seen_refs or ref[1] not in want_refs:
+                    continue
+                seen_refs.add(ref)
+                op2, post2 = g.edges[(post, ok2)]
+                c2 = dict(case)
+                c2["steps"] = case["steps"] + [{"src": op_source(op2, kind_of(post, op2["n"])), "op": op2["op"],
+                                                "want": render_state(post2), "part": partition(post2)}]
+                pairs.append(c2)
+        presults = []
+        for out in pool.imap(_run_chunk, [pairs[i:i + 64] for i in range(0, len(pairs), 64)]):
+            presults.extend(out)
+        npbad = 0
+        for case, r in zip(pairs, presults):
+            if "machinery" in r:
+                raise MachineryError(r["machinery"])
+            stats["evals"] += r["evals"]
+            stats["longest"] = max(stats["longest"], len(case["steps"]))
+            for kind, sample in r["drift"]:
+                run.drift(kind, sample)
+            if r["viol"]:
+                key, what = r["viol"]
+                if what.startswith("operation-does-not-finish"):
+                    run.drift("slow-or-hanging-probe", {"program": key})
+                    continue
+                npbad += 1
+                if what.startswith("mutator-effect:"):
+                    what = ("result-of-non-mutating-operation-not-independent (or the probe changed more "
+                            "than its target):" + what[len("mutator-effect:"):])
+                run.violation("A:" + key, what, {"kind": "program", "case": case})
+        stats["cases"] += len(cases) + len(pairs)
+        stats["levels"].append({"states": len(frontier), "transitions": len(cases), "violating": nbad,
+                                "probe_pairs": len(pairs), "violating_pairs": npbad})
         if cases:
             samples.append(cases[len(cases) // 2])
         frontier = nxt
@@ -732,8 +827,17 @@ def run(run):
     astats = {"cases": 0, "evals": 0, "longest": 0, "levels": [], "unreached": 0, "bfs": 0, "all": 0}
     asamples = []
     never = None
+    optaken = {}
+
+    phase = {}
+    t0 = [time.time()]
+
+    def lap(name):
+        phase[name] = round(phase.get(name, 0) + time.time() - t0[0], 1)
+        t0[0] = time.time()
 
     def explore(pool, label, results):
+        lap("tlc")
         g = Graph()
         for r in results:
             g.add(r)
@@ -747,12 +851,18 @@ def run(run):
         astats["levels"].append({label: st["levels"]})
         astats["all"] += len(g.edges)
         asamples.extend(sm[1:3])
+        lap("replay_A")
 
     with ctx.Pool(NPROC, initializer=_worker_init) as pool:
         # depth 2 from all initial graphs + random walks (both tiers)
-        res = run_tlc("Heap", "Heap_quick", coverage=True, timeout=3000, env={"INIT_SEL": "0"})
+        # (-coverage triples TLC's time here; which actions fired is counted from
+        # the exported transitions instead: every action labels its transitions)
+        res = run_tlc("Heap", "Heap_quick", coverage=False, timeout=3000, env={"INIT_SEL": "0"})
         run.add_tlc(res, "Heap alias-graph machine, breadth-first, sequences <= 2 (Heap_quick)")
-        never = sorted(a for a, n in res.coverage.items() if n == 0)
+        for e in res.records("EDGE"):
+            if not e["probe"]:
+                optaken[e["op"]["op"]] = optaken.get(e["op"]["op"], 0) + 1
+        never = sorted(set(ALL_OPS) - set(optaken))
         astats["bfs"] += len(res.records("EDGE"))
         ninit = len({json.dumps(x, sort_keys=True) for x in res.records("INIT")})
         walks, wdepth = (300, 6) if quick else (4000, 8)
@@ -780,7 +890,10 @@ def run(run):
     cap = 200 if quick else 1500
     with ctx.Pool(NPROC) as pool:
         funcs, events, meta, table, stats = sweep(run, rng, maxar, cap, pool)
+    lap("sweep_B")
     nbad = validate_sweep(run, events, meta, table)
+    lap("validate_B")
+    run.cov["phase_wall_s"] = phase
     ncalls = sum(1 for e in events if e["op"] == "call")
     k = next(i for i, e in enumerate(events) if e["op"] == "call" and e["fn"] == "append" and e["args"] == [2, 11])
     run.sample({"B-event": events[k], "B-source": meta[k]["src"],
@@ -795,6 +908,7 @@ def run(run):
                        "every operation); binding B: one event per call of a distinct function definition on "
                        "a distinct argument tuple, validated by Heap_Trace; evaluations counts interpreter calls")
     run.cov["exhaustive"] = True
+    run.cov["model_operations_taken_depth2"] = optaken
     run.cov["bounds"] = {"A_bfs_transitions_exported": astats["bfs"],
                          "A_distinct_transitions_replayed": astats["cases"],
                          "A_longest_program": astats["longest"], "A_random_walks": walks,
